@@ -297,6 +297,21 @@ func (d *Data) streamRawBlock(ctx *datastore.VersionedCtx, w http.ResponseWriter
 	if err != nil {
 		return err
 	}
+	if block == nil {
+		// nothing is stored at this block coordinate: it reads as background (label 0),
+		// like any other unstored region of the volume.
+		blockSize, ok := d.BlockSize().(dvid.Point3d)
+		if !ok {
+			return fmt.Errorf("block size for data %q is not 3d: %s", d.DataName(), d.BlockSize())
+		}
+		row := make([]byte, int(blockSize[0])*8)
+		for i := int32(0); i < blockSize[1]*blockSize[2]; i++ {
+			if _, err := w.Write(row); err != nil {
+				return err
+			}
+		}
+		return nil
+	}
 	if !supervoxels {
 		mapping, err := getMapping(d, ctx.VersionID())
 		if err != nil {
